@@ -20,7 +20,7 @@ from models import rawframe as F
 
 PROP = "C02"
 LEVEL = "exploration"
-BUDGET = {"quick": 6000, "thorough": 600000}
+BUDGET = {"quick": 3000, "thorough": 600000}
 RULE = ("Each run picks a side (controller or switch), builds 1-40 "
         "well-formed messages of every type that side can receive (lengths "
         "8 bytes to > 8192 so single reads end inside messages), concatenates "
@@ -199,6 +199,20 @@ def gen_plan(seed, tier):
                (1, r.randint(12, 40 if tier == "thorough" else 24))])
   mk = _msg_to_controller if side == "ctl" else _msg_to_switch
   msgs = [mk(r, 0x100 + i) for i in range(n)]
+  # read-size alignment: a message of exactly (or one off) the 2048/8192
+  # read sizes, or a message boundary landing exactly on a multiple of them
+  if r.chance(0.25):
+    T = r.pick([2048, 8192]) + r.pick([0, 0, -1, 1])
+    i = r.randrange(len(msgs))
+    msgs[i] = W.enc_echo_request(0x100 + i, r.randbytes(T - 8))
+  if r.chance(0.25):
+    i = r.randrange(len(msgs))
+    before = sum(len(m) for m in msgs[:i])
+    for T in (2048, 4096, 8192, 16384):
+      pad = T - before
+      if 8 <= pad <= 9000:
+        msgs[i] = W.enc_echo_request(0x100 + i, r.randbytes(pad - 8))
+        break
   cuts = _cuts(r, msgs)
   delays = []
   for _ in range(len(cuts) + 1):
@@ -305,6 +319,18 @@ def _drive(sim, plan):
     peer = world.new_peer()
     sim.settle()
     if not handshake_script(peer, 0x42, [PORT]):
+      # the handshake consists of well-formed messages too: if one of them
+      # arrived completely and no handler ran for it, that is a framing
+      # failure; anything else is not this property's business
+      sim.drain()
+      got = [t for t, x, n in world.delivered.get(peer.con_id, [])] \
+          if peer.con_id is not None else []
+      sent_types = [d[1] for d in _frames_of(bytes(peer.sock.accepted))]
+      for i, t in enumerate(sent_types):
+        if got[:i + 1] != sent_types[:i + 1]:
+          raise Violation("ctl/missing", "handshake message #%d (type=%d) "
+                          "arrived completely but was not delivered "
+                          "(delivered types %r)" % (i, t, got))
       raise S.SimAbort("harness", "handshake did not complete")
     con = peer.con
     base = len(world.delivered[con.ID])
@@ -387,6 +413,10 @@ def _drive(sim, plan):
       raise Violation("sw/closed", "switch closed the connection while "
                       "reading well-formed messages")
   sim.probes["msgs"] += len(msgs)
+
+
+def _frames_of(stream):
+  return W.split_stream(stream)[0]
 
 
 def _explain(have, want, arrived, total, side):
